@@ -12,7 +12,14 @@ struct PatOut {
     binds: Vec<(String, Ty)>,
     /// `[front.., rest @ .., back]` at the top of a discriminant: pattern for `Rs.unsnoc d`
     view: Option<(String, PTree)>,
+    /// the same view as a pattern for `Rs.snocView d` (any number of elements after the rest pattern);
+    /// `view` is `None` and this is `Some` when there are two or more
+    sview: Option<(String, PTree)>,
     tree: PTree,
+}
+
+fn fam_snoc() -> Vec<(String, usize)> {
+    vec![("snoc".into(), 3), ("nil".into(), 0)]
 }
 
 fn fam_option() -> Vec<(String, usize)> {
@@ -155,7 +162,7 @@ impl<'a> Tr<'a> {
                 self.unify(&at, ty, p.span())?;
                 self.pat(&t.pat, ty)
             }
-            Pat::Wild(_) => Ok(PatOut { lean: "_".into(), conds: vec![], binds: vec![], view: None, tree: PTree::Wild }),
+            Pat::Wild(_) => Ok(PatOut { lean: "_".into(), conds: vec![], binds: vec![], view: None, sview: None, tree: PTree::Wild }),
             Pat::Rest(_) => self.err(p.span(), "`..` outside a slice pattern"),
             Pat::Ident(pi) => {
                 let name = pi.ident.to_string();
@@ -163,60 +170,60 @@ impl<'a> Tr<'a> {
                     None => {
                         // a unit enum variant / constant can parse as an identifier pattern
                         if name == "None" {
-                            return Ok(PatOut { lean: "none".into(), conds: vec![], binds: vec![], view: None, tree: PTree::Ctor { name: "none".into(), family: fam_option(), args: vec![] } });
+                            return Ok(PatOut { lean: "none".into(), conds: vec![], binds: vec![], view: None, sview: None, tree: PTree::Ctor { name: "none".into(), family: fam_option(), args: vec![] } });
                         }
-                        Ok(PatOut { lean: lean_ident(&name), conds: vec![], binds: vec![(name, ty.clone())], view: None, tree: PTree::Wild })
+                        Ok(PatOut { lean: lean_ident(&name), conds: vec![], binds: vec![(name, ty.clone())], view: None, sview: None, tree: PTree::Wild })
                     }
                     Some((_, sp)) => {
                         if Self::is_scalar_cond_pat(sp) {
                             let c = self.int_pat_cond(sp, &lean_ident(&name), ty)?;
-                            return Ok(PatOut { lean: lean_ident(&name), conds: c.into_iter().collect(), binds: vec![(name, ty.clone())], view: None, tree: PTree::Wild });
+                            return Ok(PatOut { lean: lean_ident(&name), conds: c.into_iter().collect(), binds: vec![(name, ty.clone())], view: None, sview: None, tree: PTree::Wild });
                         }
                         let inner = self.pat(sp, ty)?;
-                        if inner.view.is_some() {
+                        if inner.view.is_some() || inner.sview.is_some() {
                             return self.err(p.span(), "`x @ [.., last]` pattern");
                         }
                         let mut binds = vec![(name.clone(), ty.clone())];
                         binds.extend(inner.binds);
-                        Ok(PatOut { lean: format!("{}@({})", lean_ident(&name), inner.lean), conds: inner.conds, binds, view: None, tree: inner.tree })
+                        Ok(PatOut { lean: format!("{}@({})", lean_ident(&name), inner.lean), conds: inner.conds, binds, view: None, sview: None, tree: inner.tree })
                     }
                 }
             }
             Pat::Lit(l) => {
                 if let Lit::Bool(b) = &l.lit {
                     let n = if b.value { "true" } else { "false" };
-                    return Ok(PatOut { lean: n.into(), conds: vec![], binds: vec![], view: None, tree: PTree::Ctor { name: n.into(), family: fam_bool(), args: vec![] } });
+                    return Ok(PatOut { lean: n.into(), conds: vec![], binds: vec![], view: None, sview: None, tree: PTree::Ctor { name: n.into(), family: fam_bool(), args: vec![] } });
                 }
                 let v = self.fresh("p");
                 let c = self.int_pat_cond(p, &v, ty)?;
-                Ok(PatOut { lean: v, conds: c.into_iter().collect(), binds: vec![], view: None, tree: PTree::Wild })
+                Ok(PatOut { lean: v, conds: c.into_iter().collect(), binds: vec![], view: None, sview: None, tree: PTree::Wild })
             }
             Pat::Range(_) => {
                 let v = self.fresh("p");
                 let c = self.int_pat_cond(p, &v, ty)?;
-                Ok(PatOut { lean: v, conds: c.into_iter().collect(), binds: vec![], view: None, tree: PTree::Wild })
+                Ok(PatOut { lean: v, conds: c.into_iter().collect(), binds: vec![], view: None, sview: None, tree: PTree::Wild })
             }
             Pat::Or(o) => {
                 if Self::is_scalar_cond_pat(p) {
                     let v = self.fresh("p");
                     let c = self.int_pat_cond(p, &v, ty)?;
-                    return Ok(PatOut { lean: v, conds: c.into_iter().collect(), binds: vec![], view: None, tree: PTree::Wild });
+                    return Ok(PatOut { lean: v, conds: c.into_iter().collect(), binds: vec![], view: None, sview: None, tree: PTree::Wild });
                 }
                 // alternatives without bindings: a Lean or-pattern
                 let mut leans = Vec::new();
                 for c in &o.cases {
                     let po = self.pat(c, ty)?;
-                    if !po.binds.is_empty() || !po.conds.is_empty() || po.view.is_some() {
+                    if !po.binds.is_empty() || !po.conds.is_empty() || po.view.is_some() || po.sview.is_some() {
                         return self.err(p.span(), "or-pattern with bindings or conditions below the top of an arm");
                     }
                     leans.push(po.lean);
                 }
                 // conservative tree: not used for exhaustiveness (treated as useless row is unsound) -> mark with a private ctor
-                Ok(PatOut { lean: leans.join(" | "), conds: vec![], binds: vec![], view: None, tree: PTree::Ctor { name: "<or>".into(), family: vec![], args: vec![] } })
+                Ok(PatOut { lean: leans.join(" | "), conds: vec![], binds: vec![], view: None, sview: None, tree: PTree::Ctor { name: "<or>".into(), family: vec![], args: vec![] } })
             }
             Pat::Tuple(t) if t.elems.is_empty() => {
                 self.unify(ty, &Ty::Unit, p.span())?;
-                Ok(PatOut { lean: "()".into(), conds: vec![], binds: vec![], view: None, tree: PTree::Wild })
+                Ok(PatOut { lean: "()".into(), conds: vec![], binds: vec![], view: None, sview: None, tree: PTree::Wild })
             }
             Pat::Tuple(t) => {
                 let etys: Vec<Ty> = match &ty_s {
@@ -233,7 +240,7 @@ impl<'a> Tr<'a> {
                 let mut trees = Vec::new();
                 for (sp, et) in t.elems.iter().zip(etys.iter()) {
                     let po = self.pat(sp, et)?;
-                    if po.view.is_some() {
+                    if po.view.is_some() || po.sview.is_some() {
                         return self.err(p.span(), "`[.., last]` pattern nested inside a tuple pattern that is not the match scrutinee");
                     }
                     leans.push(po.lean);
@@ -242,7 +249,7 @@ impl<'a> Tr<'a> {
                     trees.push(po.tree);
                 }
                 let n = trees.len();
-                Ok(PatOut { lean: format!("({})", leans.join(", ")), conds, binds, view: None, tree: PTree::Ctor { name: "tuple".into(), family: vec![("tuple".into(), n)], args: trees } })
+                Ok(PatOut { lean: format!("({})", leans.join(", ")), conds, binds, view: None, sview: None, tree: PTree::Ctor { name: "tuple".into(), family: vec![("tuple".into(), n)], args: trees } })
             }
             Pat::Slice(s) => {
                 let et = match &ty_s {
@@ -290,7 +297,7 @@ impl<'a> Tr<'a> {
                 let mut front_trees = Vec::new();
                 for f in &front {
                     let po = self.pat(f, &et)?;
-                    if po.view.is_some() {
+                    if po.view.is_some() || po.sview.is_some() {
                         return self.err(p.span(), "nested `[.., last]` pattern");
                     }
                     front_leans.push(po.lean);
@@ -311,7 +318,7 @@ impl<'a> Tr<'a> {
                 match (&rest, back.len()) {
                     (None, _) => {
                         let (l, t) = build(&front_leans, &front_trees, "[]".into(), nil_tree);
-                        Ok(PatOut { lean: format!("({})", l), conds, binds, view: None, tree: t })
+                        Ok(PatOut { lean: format!("({})", l), conds, binds, view: None, sview: None, tree: t })
                     }
                     (Some(r), 0) => {
                         let tail = match r {
@@ -322,10 +329,11 @@ impl<'a> Tr<'a> {
                             None => "_".to_string(),
                         };
                         let (l, t) = build(&front_leans, &front_trees, tail, PTree::Wild);
-                        Ok(PatOut { lean: format!("({})", l), conds, binds, view: None, tree: t })
+                        Ok(PatOut { lean: format!("({})", l), conds, binds, view: None, sview: None, tree: t })
                     }
-                    (Some(r), 1) => {
-                        // view through Rs.unsnoc: some (init, last), init matched by front ++ rest
+                    (Some(r), _) => {
+                        // view through Rs.unsnoc: some (init, last), init matched by front ++ rest;
+                        // with several trailing elements through Rs.snocView: .snoc _ (.snoc init _ a) b
                         let tail = match r {
                             Some(n) => {
                                 binds.push((n.clone(), slice_ty.clone()));
@@ -334,21 +342,35 @@ impl<'a> Tr<'a> {
                             None => "_".to_string(),
                         };
                         let (il, it) = build(&front_leans, &front_trees, tail, PTree::Wild);
-                        let bo = self.pat(back[0], &et)?;
-                        if bo.view.is_some() {
-                            return self.err(p.span(), "nested `[.., last]` pattern");
+                        let mut bos = Vec::new();
+                        for b in &back {
+                            let bo = self.pat(b, &et)?;
+                            if bo.view.is_some() || bo.sview.is_some() {
+                                return self.err(p.span(), "nested `[.., last]` pattern");
+                            }
+                            conds.extend(bo.conds);
+                            binds.extend(bo.binds);
+                            bos.push((bo.lean, bo.tree));
                         }
-                        conds.extend(bo.conds);
-                        binds.extend(bo.binds);
-                        let vl = format!("some ({}, {})", il, bo.lean);
-                        let vt = PTree::Ctor {
-                            name: "some".into(),
-                            family: fam_option(),
-                            args: vec![PTree::Ctor { name: "tuple".into(), family: vec![("tuple".into(), 2)], args: vec![it, bo.tree] }],
+                        let view = if bos.len() == 1 {
+                            let vl = format!("some ({}, {})", il, bos[0].0);
+                            let vt = PTree::Ctor {
+                                name: "some".into(),
+                                family: fam_option(),
+                                args: vec![PTree::Ctor { name: "tuple".into(), family: vec![("tuple".into(), 2)], args: vec![it.clone(), bos[0].1.clone()] }],
+                            };
+                            Some((vl, vt))
+                        } else {
+                            None
                         };
-                        Ok(PatOut { lean: "_".into(), conds, binds, view: Some((vl, vt)), tree: PTree::Wild })
+                        let mut sl = format!(".snoc ({}) _ {}", il, bos[0].0);
+                        let mut st = PTree::Ctor { name: "snoc".into(), family: fam_snoc(), args: vec![it, PTree::Wild, bos[0].1.clone()] };
+                        for (bl, bt) in bos.iter().skip(1) {
+                            sl = format!(".snoc _ ({}) {}", sl, bl);
+                            st = PTree::Ctor { name: "snoc".into(), family: fam_snoc(), args: vec![PTree::Wild, st, bt.clone()] };
+                        }
+                        Ok(PatOut { lean: "_".into(), conds, binds, view, sview: Some((sl, st)), tree: PTree::Wild })
                     }
-                    _ => self.err(p.span(), "slice pattern with more than one element after the rest pattern"),
                 }
             }
             Pat::TupleStruct(ts) => {
@@ -386,7 +408,7 @@ impl<'a> Tr<'a> {
                         }
                     };
                     let po = self.pat(&ts.elems[0], &inner_ty)?;
-                    if po.view.is_some() {
+                    if po.view.is_some() || po.sview.is_some() {
                         return self.err(p.span(), "`[.., last]` pattern nested in a constructor pattern");
                     }
                     let lean = match ctor {
@@ -394,7 +416,7 @@ impl<'a> Tr<'a> {
                         "ok" => format!("(Except.ok {})", po.lean),
                         _ => format!("(Except.error {})", po.lean),
                     };
-                    return Ok(PatOut { lean, conds: po.conds, binds: po.binds, view: None, tree: PTree::Ctor { name: ctor.into(), family: fam, args: vec![po.tree] } });
+                    return Ok(PatOut { lean, conds: po.conds, binds: po.binds, view: None, sview: None, tree: PTree::Ctor { name: ctor.into(), family: fam, args: vec![po.tree] } });
                 }
                 // user enum variant or tuple struct
                 let en = prev.map(|e| if e == "Self" { self.cur.self_ty.clone().unwrap_or_default() } else { e });
@@ -418,7 +440,7 @@ impl<'a> Tr<'a> {
                         lean: format!("({}.{} {})", lean_en, lean_ident(&last), leans.join(" ")),
                         conds,
                         binds,
-                        view: None,
+                        view: None, sview: None,
                         tree: PTree::Ctor { name: last, family: fam, args: trees },
                     });
                 }
@@ -438,7 +460,7 @@ impl<'a> Tr<'a> {
                     }
                     self.unify(ty, &Ty::Adt(sname.clone(), vec![]), p.span())?;
                     let n = trees.len();
-                    return Ok(PatOut { lean: format!("⟨{}⟩", leans.join(", ")), conds, binds, view: None, tree: PTree::Ctor { name: "mk".into(), family: vec![("mk".into(), n)], args: trees } });
+                    return Ok(PatOut { lean: format!("⟨{}⟩", leans.join(", ")), conds, binds, view: None, sview: None, tree: PTree::Ctor { name: "mk".into(), family: vec![("mk".into(), n)], args: trees } });
                 }
                 self.err(p.span(), &format!("unsupported constructor pattern `{}`", segs.join("::")))
             }
@@ -450,7 +472,7 @@ impl<'a> Tr<'a> {
                         let v = self.sub.fresh();
                         self.unify(ty, &Ty::Option(Box::new(v)), p.span())?;
                     }
-                    return Ok(PatOut { lean: "none".into(), conds: vec![], binds: vec![], view: None, tree: PTree::Ctor { name: "none".into(), family: fam_option(), args: vec![] } });
+                    return Ok(PatOut { lean: "none".into(), conds: vec![], binds: vec![], view: None, sview: None, tree: PTree::Ctor { name: "none".into(), family: fam_option(), args: vec![] } });
                 }
                 if segs.len() >= 2 {
                     let en = &segs[segs.len() - 2];
@@ -465,20 +487,20 @@ impl<'a> Tr<'a> {
                             lean: format!("Ordering.{}", c),
                             conds: vec![],
                             binds: vec![],
-                            view: None,
+                            view: None, sview: None,
                             tree: PTree::Ctor { name: c.into(), family: vec![("lt".into(), 0), ("eq".into(), 0), ("gt".into(), 0)], args: vec![] },
                         });
                     }
                     if let Some(lean_en) = self.reg.enums.get(&en).cloned() {
                         self.unify(ty, &Ty::Adt(en.clone(), vec![]), p.span())?;
                         let fam = self.enum_family(&en);
-                        return Ok(PatOut { lean: format!("{}.{}", lean_en, lean_ident(&last)), conds: vec![], binds: vec![], view: None, tree: PTree::Ctor { name: last, family: fam, args: vec![] } });
+                        return Ok(PatOut { lean: format!("{}.{}", lean_en, lean_ident(&last)), conds: vec![], binds: vec![], view: None, sview: None, tree: PTree::Ctor { name: last, family: fam, args: vec![] } });
                     }
                 }
                 // constant
                 let v = self.fresh("p");
                 let c = self.int_pat_cond(p, &v, ty)?;
-                Ok(PatOut { lean: v, conds: c.into_iter().collect(), binds: vec![], view: None, tree: PTree::Wild })
+                Ok(PatOut { lean: v, conds: c.into_iter().collect(), binds: vec![], view: None, sview: None, tree: PTree::Wild })
             }
             Pat::Struct(ps) => {
                 let segs = path_segs(&ps.path);
@@ -514,7 +536,7 @@ impl<'a> Tr<'a> {
                             }
                         }
                         let fam = self.enum_family(&en);
-                        return Ok(PatOut { lean: format!("({}.{} {})", lean_en, lean_ident(&last), leans.join(" ")), conds, binds, view: None, tree: PTree::Ctor { name: last, family: fam, args: trees } });
+                        return Ok(PatOut { lean: format!("({}.{} {})", lean_en, lean_ident(&last), leans.join(" ")), conds, binds, view: None, sview: None, tree: PTree::Ctor { name: last, family: fam, args: trees } });
                     }
                 }
                 let sname = if last == "Self" { self.cur.self_ty.clone().unwrap_or_default() } else { last };
@@ -549,7 +571,7 @@ impl<'a> Tr<'a> {
                     }
                 }
                 let n = trees.len();
-                Ok(PatOut { lean: format!("⟨{}⟩", leans.join(", ")), conds, binds, view: None, tree: PTree::Ctor { name: "mk".into(), family: vec![("mk".into(), n)], args: trees } })
+                Ok(PatOut { lean: format!("⟨{}⟩", leans.join(", ")), conds, binds, view: None, sview: None, tree: PTree::Ctor { name: "mk".into(), family: vec![("mk".into(), n)], args: trees } })
             }
             _ => self.err(p.span(), "unsupported pattern form"),
         }
@@ -646,7 +668,7 @@ impl<'a> Tr<'a> {
             let mut po = Vec::new();
             for (j, p) in r.pats.iter().enumerate() {
                 match p {
-                    None => po.push(PatOut { lean: "_".into(), conds: vec![], binds: vec![], view: None, tree: PTree::Wild }),
+                    None => po.push(PatOut { lean: "_".into(), conds: vec![], binds: vec![], view: None, sview: None, tree: PTree::Wild }),
                     Some(p) => {
                         let t = discr[j].1.clone();
                         po.push(self.pat(p, &t)?);
@@ -656,16 +678,19 @@ impl<'a> Tr<'a> {
             routs.push(RowOut { po, arm: r.arm });
         }
         // view discriminants
-        let need_view: Vec<bool> = (0..k).map(|j| routs.iter().any(|r| r.po[j].view.is_some())).collect();
+        let need_view: Vec<bool> = (0..k).map(|j| routs.iter().any(|r| r.po[j].sview.is_some())).collect();
+        // two or more elements after a rest pattern somewhere in the column: the general view
+        let deep_view: Vec<bool> = (0..k).map(|j| routs.iter().any(|r| r.po[j].sview.is_some() && r.po[j].view.is_none())).collect();
         let mut dterms: Vec<String> = discr.iter().map(|d| d.0.clone()).collect();
         for j in 0..k {
             if need_view[j] {
-                dterms.push(format!("Rs.unsnoc {}", discr[j].0));
+                dterms.push(format!("{} {}", if deep_view[j] { "Rs.snocView" } else { "Rs.unsnoc" }, discr[j].0));
             }
         }
         let mut cx = MatchCx {
             dterms,
             need_view,
+            deep_view,
             k,
             outs: outs.to_vec(),
             want_value,
@@ -689,7 +714,7 @@ impl<'a> Tr<'a> {
         let mut ts: Vec<PTree> = r.po.iter().map(|p| p.tree.clone()).collect();
         for j in 0..cx.k {
             if cx.need_view[j] {
-                match &r.po[j].view {
+                match if cx.deep_view[j] { &r.po[j].sview } else { &r.po[j].view } {
                     Some((l, t)) => {
                         ls.push(l.clone());
                         ts.push(t.clone());
@@ -781,7 +806,7 @@ impl<'a> Tr<'a> {
         let ncols = cx.dterms.len();
         {
             let row = &routs[from];
-            let all_wild = row.po.iter().all(|p| p.lean == "_" && p.conds.is_empty() && p.binds.is_empty() && p.view.is_none());
+            let all_wild = row.po.iter().all(|p| p.lean == "_" && p.conds.is_empty() && p.binds.is_empty() && p.view.is_none() && p.sview.is_none());
             if all_wild && arms[row.arm].guard.is_none() {
                 let body = self.arm_body(row, arms, cx, sp)?;
                 let mut lines = vec!["(do".to_string()];
@@ -874,6 +899,7 @@ struct RowOut {
 struct MatchCx {
     dterms: Vec<String>,
     need_view: Vec<bool>,
+    deep_view: Vec<bool>,
     k: usize,
     outs: Vec<String>,
     want_value: bool,
